@@ -515,7 +515,9 @@ def _judge_variant(case, col, v, yv, xv, system, res, fitted_periods, first_win,
     yscale = max(1.0, _maxabs(Yf))
     # ---- coefficients / intercept equal the independent least-squares solution
     good = _close(beta_got, beta_ref, RTOL_COEF, bscale)
-    if not good and case["kind"] == "priors":
+    if case["kind"] == "priors":
+        # (both readings are evaluated even when the first one is within tolerance: with y_std next to one they nearly
+        # coincide, and the later, tighter assertions must use the dummy observations that were actually used)
         # The scale of the dummy observations is not fixed by the property or by any documentation: the estimator
         # computes a per-variable scale y_std for the prior, but PriorObs builds its observations with unit scale.
         # Either reading is accepted; the assertions below then use the matching set of dummy observations.
@@ -527,7 +529,7 @@ def _judge_variant(case, col, v, yv, xv, system, res, fitted_periods, first_win,
             return None, A, c_eff, cov          # the second admissible reading cannot be judged: neither can the case
         if True:
             beta1 = np.linalg.lstsq(X1.T, Y1.T, rcond=None)[0].T
-            if _close(beta_got, beta1, RTOL_COEF, max(1.0, _maxabs(beta1))):
+            if _close(beta_got, beta1, RTOL_COEF, max(1.0, _maxabs(beta1))) and (not good or _maxabs(beta_got - beta1) < _maxabs(beta_got - beta_ref)):
                 Xe, Ye, beta_ref, good = X1, Y1, beta1, True
                 bscale = max(1.0, _maxabs(beta_ref))
     col.check(good, f"{tagp}:coefficients",
